@@ -1,6 +1,16 @@
 META = {
     "assumptions": ["allocation failure out of scope (--no-malloc-may-fail)"],
-    "outside": [],
+    "outside": [
+        "misc/mke2fs.c as a whole: PRS option validation, journal / quota / orphan file / root / lost+found / resize inode creation, "
+        "-d population, -n, byte-for-byte reproducibility, e2fsck -fn verdict on the produced image (whole tool)",
+        "ext2fs_allocate_tables / ext2fs_allocate_group_table / flexbg_offset and mke2fs packed_allocate_tables (no harness was built: planned "
+        "rung 2 of DESIGN.md not reached in the time box)",
+        "ext2fs_initialize beyond 4 groups x 256 blocks; bigalloc; the 'blocks_per_group -= 8' retry for oversized inode requests; "
+        "non-zero reserved block count (floating-point recomputation); 4 KiB / 64bit shapes only in the thorough tier",
+        "ext2fs_reserve_super_and_bgd2's composition (real marking + real count) is decided piecewise (reserve_sb with a logging bitmap, "
+        "count_used on an 8-bit bit array), not as one query; bigalloc block-0 marking not covered",
+        "res_gdt.c, mkjournal.c, orphan.c, mkquota.c, mk_hugefiles.c, create_inode.c, lib/e2p/feature.c",
+    ],
 }
 BM_SRC = ["lib/ext2fs/gen_bitmap64.c", "lib/ext2fs/bitops.c", "lib/ext2fs/gen_bitmap.c",
           "lib/ext2fs/blkmap64_rb.c", "lib/ext2fs/rbtree.c"]
@@ -39,10 +49,19 @@ HARNESSES = [
          extra_src=["lib/ext2fs/closefs.c", "lib/ext2fs/blknum.c"],
          funcs=["ext2fs_initialize", "calc_reserved_gdt_blocks", "ext2fs_super_and_bgd_loc2", "ext2fs_bg_has_super",
                 "ext2fs_group_blocks_count", "ext2fs_bg_free_blocks_count_set"],
-         configs=[{"LOGBS": 0, "BPG": 256, "ISIZE": 128, "IS64": 0, "MAXG": 4}],
+         configs=[{"LOGBS": 0, "BPG": 256, "ISIZE": 128, "IS64": 0, "MAXG": 4},
+                  # the two isolated defects of the unchanged tree (see harness comments / final report)
+                  {"LOGBS": 0, "BPG": 256, "ISIZE": 128, "IS64": 0, "MAXG": 4, "AUTO_META_RSV": None},
+                  {"LOGBS": 0, "BPG": 256, "ISIZE": 128, "IS64": 0, "MAXG": 4, "SS2_ONE_GROUP": None},
+                  {"LOGBS": 0, "BPG": 256, "ISIZE": 256, "IS64": 1, "MAXG": 4, "_tier": "thorough"},
+                  {"LOGBS": 2, "BPG": 32768, "ISIZE": 256, "IS64": 1, "MAXG": 3, "_unwindset": INIT_UW(3), "_tier": "thorough"}],
          unwind=3, unwindset=INIT_UW(4),
          backends=["default", "kissat"], cap_quick=240,
-         bound="TBD"),
+         cap_thorough=1200,
+         bound="1..4 groups of 256 blocks (1 KiB blocks, 128-byte inodes, 32-byte descriptors); block count, requested inode "
+               "count (below the blocks_per_group-retry threshold), features {sparse_super, sparse_super2 + num_backup_sb, meta_bg, "
+               "flex_bg + log_groups_per_flex, resize_inode, gdt_csum}, explicit s_reserved_gdt_blocks, revision: symbolic; "
+               "r_blocks_count 0, s_first_meta_bg 0, bigalloc off"),
     dict(name="count_used", src="count_used.c", extra_src=BM_SRC,
          funcs=["ext2fs_count_used_blocks", "ext2fs_find_first_set_generic_bmap",
                 "ext2fs_find_first_zero_generic_bmap", "ba_find_first_set", "ba_find_first_zero"],
